@@ -456,6 +456,7 @@ Proof.
       * apply sync_exec_b3. auto.
       * intros W. apply sync_exec_c; auto.
     + (* ordinary tick: execute, then fetch *)
+      rewrite Ff in E.
       destruct (sync_fetching c st0 p now p ac an) as [st2 post'] eqn:F. inversion E; subst. clear E.
       pose proof (sync_exec_dispatches c (s_store st0) s now) as Dx.
       pose proof (sync_fetching_post _ _ _ _ _ _ _ _ _ (H ++ sync_exec c (s_store st0) s now) Hac Han F) as FP.
@@ -475,7 +476,7 @@ Proof.
       * apply sync_exec_b3. now rewrite app_nil_r.
       * intros W. apply sync_exec_c; auto. now rewrite app_nil_r.
   - (* the first tick *)
-    destruct (Hnone eq_refl) as [Ff [Cu [Nx At]]]. rewrite Ff in E. simpl in E.
+    destruct (Hnone eq_refl) as [Ff [Cu [Nx At]]]. rewrite Ff in E. simpl in E. rewrite Ff in E.
     destruct (sync_fetching c _ p now p ac an) as [st2 pre'] eqn:F. inversion E; subst. clear E.
     pose proof (sync_fetching_post _ _ _ _ _ _ _ _ _ H Hac Han F) as FP.
     destruct FP as [P1 P2 P3 P4 P5 P6 P6' P7 P8 P9]. simpl in *.
@@ -486,8 +487,66 @@ Proof.
       * apply b3_ok_dispatches; auto.
       * apply c_ok_dispatches; auto.
       * left. apply c_ok_dispatches; auto. destruct P6' as [Q|Q]; [|exact Q].
-        apply c_ok_unattempted. rewrite Q. apply At. lia.
+        apply c_ok_unattempted. etransitivity; [exact Q|]. apply At. lia.
       * intros k Hk. rewrite last_attempt_disp, P9 by (auto; lia). apply At. lia.
     + apply sync_exec_b3. auto.
     + intros W. apply sync_exec_c; auto.
+Qed.
+
+(* ---- runs ---------------------------------------------------------------------------------------------------- *)
+
+Definition sync_tick_ok (c : cfg) (hist : list obs) (s now : N) (pre disp : list obs) : Prop :=
+  in_latest_assignment (speriod c) false true hist s pre disp /\
+  (strict_window now s = true ->
+   dispatches_all_due (speriod c) false true sync_owes hist s pre disp).
+
+Lemma sync_init_fetches : forall c now a st o, sync_init c now a = (st, o) -> forallb is_fetch o = true.
+Proof.
+  intros c now a st o E. unfold sync_init in E.
+  destruct (sync_fetching c _ (speriod c now) now (speriod c now) a AFail) as [st1 o1] eqn:F.
+  inversion E; subst. unfold sync_fetching in F. simpl in F.
+  destruct (sync_fetch c [] (speriod c now) _ _) as [[s1 o2] ok1] eqn:F1.
+  apply sync_fetch_spec in F1. destruct F1 as [-> _].
+  destruct ok1; simpl in F; inversion F; reflexivity.
+Qed.
+
+Lemma sync_init_nodup : forall c now a st o, sync_init c now a = (st, o) -> store_nodup false (s_store st).
+Proof.
+  intros c now a st o E. unfold sync_init in E.
+  destruct (sync_fetching c _ (speriod c now) now (speriod c now) a AFail) as [st1 o1] eqn:F.
+  inversion E; subst. simpl. eapply sync_fetching_nodup; [|exact F]. apply store_nodup_nil.
+Qed.
+
+Lemma sync_run_shape : forall c st evs st' recs,
+  run (sync_step c) st evs = (st', recs) -> Forall (record_shape strict_window) recs.
+Proof. intros c st evs st' recs R. eapply run_shape; eauto. intros; eapply sync_step_shape; eauto. Qed.
+
+Lemma sync_run_at_most_once : forall c now0 a0 st0 io evs st' recs,
+  sync_init c now0 a0 = (st0, io) -> ticks_increasing evs ->
+  run (sync_step c) st0 evs = (st', recs) ->
+  NoDup (dispatch_keys (io ++ trace_of recs)).
+Proof.
+  intros c now0 a0 st0 io evs st' recs Hi Ht R.
+  rewrite dispatch_keys_app, (dispatch_keys_fetches _ (sync_init_fetches _ _ _ _ _ Hi)). simpl.
+  pose proof (sync_init_nodup _ _ _ _ _ Hi) as Hn.
+  eapply (run_at_most_once sync_state (sync_step c) (fun st => store_nodup false (s_store st)) strict_window);
+    eauto.
+  - intros; eapply sync_step_shape; eauto.
+  - intros; eapply sync_step_nodup_inv; eauto.
+  - intros; eapply sync_step_disp_nodup; eauto.
+Qed.
+
+Lemma sync_run_honest : forall c now0 a0 st0 io evs st' recs,
+  cfg_ok c -> boundary_fix c = true -> answer_ok false a0 ->
+  sync_init c now0 a0 = (st0, io) -> honest false now0 evs ->
+  run (sync_step c) st0 evs = (st', recs) ->
+  for_all_ticks io recs (sync_tick_ok c).
+Proof.
+  intros c now0 a0 st0 io evs st' recs Hc Fix Ha Hi Hh R.
+  eapply (honest_run sync_state (sync_step c) (sync_inv c now0) false now0 (sync_tick_ok c)) with (last := None);
+    eauto.
+  - intros n st H s now ac an st1 pre disp post Inv Hs A1 A2 E. simpl in E.
+    apply (sync_tick_inv c now0 n st H s now ac an); auto.
+  - intros n st H ev st1 o Inv Nt Hs E. eapply sync_event_inv; eauto.
+  - simpl. eapply sync_init_inv; eauto.
 Qed.
